@@ -1,4 +1,4 @@
-Require Import OPC.gen.GenKinds OPC.Uni OPC.Names OPC.Codec OPC.Types OPC.Endpoint OPC.EndpointThm.
+Require Import OPC.gen.GenKinds OPC.Uni OPC.Names OPC.Codec OPC.Types OPC.Endpoint OPC.EndpointThm OPC.Parse OPC.ParseThm.
 From Coq Require Import NArith ZArith List Bool. Import ListNotations. Open Scope N_scope.
 
 (* a response with a documented status is decoded from the documented source with the documented schema's decoder *)
@@ -37,3 +37,19 @@ Print Assumptions C04_parsed_value_typed.
 Theorem C04_status_alias_refuted : exists rs h r2,
   In r2 rs /\ rs_status r2 = h_status h /\ documented rs (h_status h) <> Some r2.
 Proof. exact status_alias_refuted_corrected. Qed.
+
+(* document level: which source a documented response is decoded from (first supported media type wins; no content -> None;
+   only when nothing is supported is the response rejected, with a diagnostic) *)
+Theorem C04_empty_content_is_no_content : response_plan [] = RNoContent.
+Proof. exact empty_content_is_no_content. Qed.
+Theorem C04_first_supported_wins : forall pre ct hs src rest,
+  (forall c, In c pre -> response_source (fst c) = None) -> response_source ct = Some src ->
+  first_supported (pre ++ (ct, hs) :: rest) = Some (src, hs).
+Proof. exact first_supported_wins. Qed.
+Theorem C04_unsupported_only_is_error : forall content,
+  content <> [] -> (forall c, In c content -> response_source (fst c) = None) -> response_plan content = RError.
+Proof. exact unsupported_only_is_error. Qed.
+Theorem C04_supported_is_never_error : forall content c src,
+  In c content -> response_source (fst c) = Some src -> response_plan content <> RError.
+Proof. exact supported_is_never_error. Qed.
+Print Assumptions C04_supported_is_never_error.
